@@ -341,6 +341,11 @@ class TreeToODE(lark.Transformer):
                 other = definitions.setdefault(atom.name, atom)
                 if not same_definition(other, atom):
                     raise exceptions.DuplicateSymbolError({atom.name})
+                if other is not atom and other.components == atom.components:
+                    # A repetition of a definition. Keep the first one only, also when the
+                    # copies differ in comments, units or descriptions (which would make
+                    # them different members of the sets below)
+                    continue
                 for component in atom.components:
                     components[component][mapping[type(atom)]].add(atom)
 
